@@ -119,6 +119,35 @@ def Validator.accepts (L : Lib) (v : Validator) (u p : Text) : Bool :=
   | .ok b => b
   | .error _ => false
 
+/-! ### `ProxyAuth.configure`: which validator a `proxyauth` option value selects -/
+
+inductive Conf where
+  | off                          -- None or "": no validator
+  | any                          -- "any"
+  | htpasswd (path : Text)       -- "@path"
+  | ldap (spec : Text)           -- "ldap…" (not modelled further)
+  | single (u p : Text)          -- "user:pass" with exactly one ':' (SingleUser splits at EVERY colon and wants two parts)
+  | invalid                      -- OptionsError
+  deriving DecidableEq, Repr
+
+def anyWord : Text := [97, 110, 121]          -- "any"
+def ldapWord : Text := [108, 100, 97, 112]    -- "ldap"
+
+def configureSpec : Option Text → Conf
+  | none => .off
+  | some a =>
+    if a.isEmpty then .off
+    else if a = anyWord then .any
+    else match a with
+      | 64 :: path => .htpasswd path
+      | _ =>
+        if ldapWord.isPrefixOf a then .ldap a
+        else if a.contains 58 then
+          match splitColonAll a with
+          | some (u, p) => .single u p
+          | none => .invalid
+        else .invalid
+
 /-! ### header fields -/
 
 structure Hdr where
